@@ -38,19 +38,22 @@ def digitRun (radix : Nat) : Bytes → List Nat × Bytes
   | [] => ([], [])
   | b :: r =>
     match digitVal radix b with
-    | some d => (d :: (digitRun radix r).1, (digitRun radix r).2)
+    | some d =>
+      match digitRun radix r with
+      | (ds, rest) => (d :: ds, rest)
     | none => ([], b :: r)
 
 /-- `Parser::read_number(radix, Some(max_digits), allow_zero_prefix)` into a type of `bits` bits: at least one digit,
 at most `max_digits`, no leading zero on a longer number unless allowed, the value must fit -/
 def readNumber (radix maxDigits bits : Nat) (allowZeroPrefix : Bool) (s : Bytes) : Option (Nat × Bytes) :=
-  let ds := (digitRun radix s).1
-  if ds.isEmpty then none
-  else if ds.length > maxDigits then none
-  else if !allowZeroPrefix && ds.head? = some 0 && ds.length > 1 then none
-  else
-    let v := ds.foldl (fun acc d => acc * radix + d) 0
-    if v < 2 ^ bits then some (v, (digitRun radix s).2) else none
+  match digitRun radix s with
+  | (ds, rest) =>
+    if ds.isEmpty then none
+    else if ds.length > maxDigits then none
+    else if !allowZeroPrefix && ds.head? = some 0 && ds.length > 1 then none
+    else
+      let v := ds.foldl (fun acc d => acc * radix + d) 0
+      if v < 2 ^ bits then some (v, rest) else none
 
 /-- `Parser::read_separator(sep, index, inner)`: the separator before every item but the first -/
 def readSep (sep : UInt8) (index : Nat) (inner : Bytes → Option (α × Bytes)) (s : Bytes) : Option (α × Bytes) :=
@@ -77,23 +80,27 @@ def readGroups : (remaining : Nat) → (i : Nat) → Bytes → List Nat × Bool 
     | some ((a, b, c, d), s') => ([a * 256 + b, c * 256 + d], true, s')
     | none =>
       match readSep 58 i (readNumber 16 4 16 true) s with
-      | some (g, s') => (g :: (readGroups n (i + 1) s').1, (readGroups n (i + 1) s').2.1, (readGroups n (i + 1) s').2.2)
+      | some (g, s') =>
+        match readGroups n (i + 1) s' with
+        | (gs, v4, rest) => (g :: gs, v4, rest)
       | none => ([], false, s)
 
 /-- `Parser::read_ipv6_addr`: eight groups, or a head, `::` and a tail of at most `7 - head` groups (an IPv4 part is
 not allowed before `::`) -/
 def readIpv6 (s : Bytes) : Option (List Nat × Bytes) :=
-  let head := readGroups 8 0 s
-  if head.1.length = 8 then some (head.1, head.2.2)
-  else if head.2.1 then none
-  else
-    match head.2.2 with
-    | 58 :: 58 :: s2 =>
-      -- `let limit = 8 - (head_size + 1)`: head_size ≤ 7 here
-      let tail := readGroups (7 - head.1.length) 0 s2
-      -- `head[(8 - tail_size)..8].copy_from_slice(&tail[..tail_size])` over the zero-initialised array
-      some (head.1 ++ List.replicate (8 - head.1.length - tail.1.length) 0 ++ tail.1, tail.2.2)
-    | _ => none
+  match readGroups 8 0 s with
+  | (head, headV4, s1) =>
+    if head.length = 8 then some (head, s1)
+    else if headV4 then none
+    else
+      match s1 with
+      | 58 :: 58 :: s2 =>
+        -- `let limit = 8 - (head_size + 1)`: head_size ≤ 7 here
+        match readGroups (7 - head.length) 0 s2 with
+        | (tail, _, s3) =>
+          -- `head[(8 - tail_size)..8].copy_from_slice(&tail[..tail_size])` over the zero-initialised array
+          some (head ++ List.replicate (8 - head.length - tail.length) 0 ++ tail, s3)
+      | _ => none
 
 /-- `host_str.parse::<IpAddr>()`: `read_ipv4_addr().or_else(read_ipv6_addr)`, and the whole text must be consumed -/
 def parseIpAddr (s : Bytes) : Option Http.IpAddr :=
